@@ -4,7 +4,7 @@ import re
 from vlib import core, e2e
 from vlib import print_common as pc
 
-MODS = ['S4V.Props.PrintSpec']
+MODS = ['S4V.Props.PrintSpec', 'S4V.Props.SummarySpec', 'S4V.Props.SummaryReaderSpec']
 LEVEL_NOTE = ("Proved over the model of the coordinator's accounting (SummaryPrinted::summaryprint_update_* / summaryprint_map_update_*, the separator and "
               "final-newline additions in processing_loop) run alongside the byte-level print model: `Printed bytes` = length of stdout with the colour escapes "
               "removed (C19_total_bytes, C19_total_bytes_stripped on the byte stream), = length of stdout literally under --color never (C19_total_bytes_nocolor); the "
@@ -280,14 +280,15 @@ def oracle_long_messages(ctx):
 
 def check(ctx):
     from vlib.props.C13 import corr_prt
-    ok_gen = core.step_gen(ctx, ['Print'])
+    ok_gen = core.step_gen(ctx, ['Print', 'Summary', 'Filter'])
     prove = core.step_prove(ctx, MODS) if ok_gen else {'module': ' '.join(MODS), 'obligations': 0, 'discharged': 0}
     ok_drv = core.step_drv(ctx) if (ok_gen or ctx.search_mode) else False
     ok_impl = core.step_build_impl(ctx, need_harness=True)
     orc, corr = (None, [])
     if ok_impl and ok_drv:
         orc, corr = oracle_and_corr(ctx)
-        corr = corr + [corr_prt(ctx)]
+        # the real SummaryPrinted update / map-update functions in-process vs the interpreter of the regenerated accounting
+        corr = corr + [corr_prt(ctx), core.correspond(ctx, 'summ', ctx.q(2000, 20000))]
         orc = core.merge_oracles([orc, oracle_long_messages(ctx)])
     return core.decide(ctx, prove, corr, orc, LEVEL_NOTE, ASSUME)
 
